@@ -6,12 +6,7 @@ package secureservice
 // ---------------------------------------------------------------------------------------------
 // C14: credential checking. Signature verification and key decoding are assumed leaves.
 //
-//@ func iface crypto.PubKey.Verify
-//@   pure
-//@   ensures result0 == sigOK(recv, bytestr(arg1), arg2)
-//@ func github.com/anyproto/any-sync/util/crypto.UnmarshalEd25519PublicKeyProto
-//@   pure
-//@   ensures result1 == nil ==> result0 != nil
+// (crypto leaves: /verif/catalog/crypto.gospec)
 // the generated decoder writes only into the message it is called on
 //@ func (*github.com/anyproto/any-sync/net/secureservice/handshake/handshakeproto.PayloadSignedPeerIds).UnmarshalVT
 //@   modifies younger arg0
@@ -34,13 +29,6 @@ package secureservice
 //@   ensures [no_identity]       err == nil ==> len(result.Identity) == 0 && result.ProtoVersion == cred.Version
 
 // MakeCredentials carries our protocol version and the signed-peer-ids kind.
-//@ func iface crypto.PrivKey.Sign
-//@   pure
-//@ func iface crypto.PrivKey.GetPublic
-//@   pure
-//@   ensures result != nil
-//@ func iface crypto.PubKey.Marshall
-//@   pure
 //@ func (*github.com/anyproto/any-sync/net/secureservice/handshake/handshakeproto.PayloadSignedPeerIds).MarshalVT
 //@   modifies nothing
 //@ package github.com/anyproto/any-sync/net/secureservice
